@@ -134,9 +134,6 @@ impl World {
 
 fn upgrade_request(i: usize, s: &Session) -> Value {
     let mut r = request(Sym { kind: Kind::Upgrade, flag: Flag::None }, i);
-    if s.greet {
-        r["parameters"]["token"] = json!(format!("greet-{}", i));
-    }
     if s.greet_one_write {
         r["method"] = json!("org.verif.greeter.Upgrade");
         if s.greet_late {
@@ -174,11 +171,7 @@ pub fn reference(w: &World, s: &Session) -> Result<(Vec<u8>, Vec<u8>), Fail> {
         reqs.push(slow_request(0));
     }
     let mut echo: Vec<u8> = s.upgrade.as_ref().map(|p| p.iter().map(|b| b.to_ascii_uppercase()).collect()).unwrap_or_default();
-    if s.greet && !s.greet_one_write && s.upgrade.is_some() {
-        let mut g = vl_model::svc::GREETING.to_vec();
-        g.extend_from_slice(&echo);
-        echo = g;
-    }
+    let _ = &mut echo;
     let mut out = vec![];
     match s.mode {
         Mode::Resolver => {
@@ -606,9 +599,10 @@ fn session_strategy() -> impl Strategy<Value = Session> {
             let slow_tail = slow_tail && close_early;
             let hangup_while_waiting = hangup && !close_early;
             let upgrade = if hangup_while_waiting { None } else { upgrade };
-            let greet = greet && upgrade.is_some();
-            // every other greeting session in resolver mode goes to the raw greeter
-            let greet_one_write = greet && mode == Mode::Resolver && ix.len() % 2 == 0;
+            // the service speaks first after the upgrade: resolver mode, through the raw greeter service
+            // (under listen() the T-service's upgraded handler only runs once the client has sent something)
+            let greet = greet && upgrade.is_some() && mode == Mode::Resolver;
+            let greet_one_write = greet;
             let greet_late = greet_one_write && ix.len() % 4 == 0;
             let mut s = Session { mode, syms, pipelined, upgrade, payload_pipelined, close_early, spaced, slow_tail, hangup_while_waiting, greet, greet_one_write, greet_late };
             if s.syms.is_empty() && s.upgrade.is_none() {
